@@ -77,3 +77,9 @@ package crypto
 //@           content(pv.LastSignState.SignBytes) == old(proposal_sb(chainID, proposal)) &&
 //@           pv.LastSignState.Signature == proposal.Signature                                                  [C20]
 //@   assert@store(Proposal.Signature,2): disk[pv.LastSignState.filePath] == lssenc(proposal.Height, proposal.Round, 1, $value, signBytes)   [C20]
+
+//@ func Sig2Addr(msg, sig)
+//@   trusted
+//@   pure
+//@   ensures result2 == nil ==> len(result0) == 20 && content(result0) == sigaddr(content(msg), content(sig)) && sig != nil
+//@   ensures result2 != nil ==> result0 == nil && result1 == nil
